@@ -31,6 +31,7 @@ type snap struct {
 	idc      string
 	count    int
 	idxcur   bool
+	idxuser  bool // GetSession("me") returns this session (printed as false when no id was assigned)
 	notified bool
 	disc     int
 	rh, ah   int
@@ -48,6 +49,8 @@ type kase struct {
 	cmds   []cmd
 	snaps  []snap
 	rounds []roundRec
+	mod      string // what the PostDial plugins do to the socket (see world.mod)
+	modFirst bool
 	class  string
 	accepts string
 	badFlag bool
@@ -66,8 +69,11 @@ func (w *world) snapshot(pos map[string]string) snap {
 		idc = "local"
 	case id == s.RemoteAddr().String():
 		idc = "remote"
+	case id == w.firstID:
+		idc = "first" // the id the session had right after Dial (an address that is no longer the local one)
 	}
 	got, ok := w.cli.GetSession(id)
+	gotU, okU := w.cli.GetSession("me")
 	notified := false
 	select {
 	case <-s.CloseNotify():
@@ -87,7 +93,7 @@ func (w *world) snapshot(pos map[string]string) snap {
 		}
 		out[a.name] = p
 	}
-	return snap{status: st, health: s.Health(), idc: idc, count: w.cli.CountSession(), idxcur: ok && got == s,
+	return snap{status: st, health: s.Health(), idc: idc, count: w.cli.CountSession(), idxcur: ok && got == s, idxuser: okU && gotU == s,
 		notified: notified, disc: w.discHks, rh: w.redialHks, ah: w.acceptHks, pos: out, nrounds: len(w.rounds), d4: w.d4}
 }
 
@@ -101,7 +107,7 @@ func (s snap) val() string {
 	for _, n := range names {
 		ps = append(ps, VL(VS(n), VS(s.pos[n])))
 	}
-	return VL(VS(s.status), VBool(s.health), VS(s.idc), VN(int64(s.count)), VBool(s.idxcur), VBool(s.notified),
+	return VL(VS(s.status), VBool(s.health), VS(s.idc), VN(int64(s.count)), VBool(s.idxcur), VBool(s.idxuser), VBool(s.notified),
 		VN(int64(s.disc)), VN(int64(s.rh)), VN(int64(s.ah)), VL(ps...))
 }
 
@@ -115,8 +121,8 @@ func (s snap) human() string {
 	for _, n := range names {
 		ps = append(ps, n+"="+s.pos[n])
 	}
-	return fmt.Sprintf("%s health=%v id=%s count=%d idx=%v notif=%v disc=%d hooks=%d/%d [%s]", s.status, s.health, s.idc,
-		s.count, s.idxcur, s.notified, s.disc, s.ah, s.rh, strings.Join(ps, " "))
+	return fmt.Sprintf("%s health=%v id=%s count=%d idx=%v idxme=%v notif=%v disc=%d hooks=%d/%d [%s]", s.status, s.health, s.idc,
+		s.count, s.idxcur, s.idxuser, s.notified, s.disc, s.ah, s.rh, strings.Join(ps, " "))
 }
 
 func (c cmd) val() string {
@@ -142,7 +148,11 @@ func (k *kase) inputs() string {
 	for _, c := range k.cmds {
 		cs = append(cs, c.val())
 	}
-	return VL(VZ(int64(k.budget)), VBool(k.uid), VL(ps...), VL(pl...), VS(string(k.pdef)), VL(cs...))
+	mod := k.mod
+	if mod == "" {
+		mod = "none"
+	}
+	return VL(VZ(int64(k.budget)), VBool(k.uid), VL(ps...), VL(pl...), VS(string(k.pdef)), VL(cs...), VL(VS(mod), VBool(k.modFirst)))
 }
 
 func (k *kase) observed() string {
@@ -158,7 +168,7 @@ func (k *kase) observed() string {
 
 func (k *kase) human() string {
 	var b strings.Builder
-	fmt.Fprintf(&b, "budget=%d uid=%v park=%v plan=%s/%c\n", k.budget, k.uid, k.park, string(k.plan), k.pdef)
+	fmt.Fprintf(&b, "budget=%d uid=%v park=%v plan=%s/%c postdial-modifysocket=%q first=%v\n", k.budget, k.uid, k.park, string(k.plan), k.pdef, k.mod, k.modFirst)
 	for i, c := range k.cmds {
 		fmt.Fprintf(&b, "  %-6s %-5s %v", c.op, c.arg, c.hints)
 		if i < len(k.snaps) {
@@ -272,7 +282,7 @@ var tNew, tTear, tRun time.Duration
 
 func runCase(k *kase, script []cmd, rng func(int) int, steps int) {
 	t0 := time.Now()
-	w := newWorld(k.budget, k.uid, k.park, append([]byte(nil), k.plan...), k.pdef)
+	w := newWorld(k.budget, k.uid, k.park, append([]byte(nil), k.plan...), k.pdef, k.mod, k.modFirst)
 	tNew += time.Since(t0)
 	t1 := time.Now()
 	defer func() {
@@ -309,7 +319,15 @@ func runCase(k *kase, script []cmd, rng func(int) int, steps int) {
 					opts = append(opts, cmd{op: "rel", arg: n, sat: true})
 				}
 			}
-			if cuts < 3 {
+			// the websocket upgrade is I/O on the fresh connection inside the hook: a loss between
+			// socket.Reset and the end of the hooks is the upgrade's failure, not a verdict
+			midRound := false
+			for _, p := range last.pos {
+				if p == gReset || p == gHook {
+					midRound = true
+				}
+			}
+			if cuts < 3 && !(k.mod == "ws" && midRound) {
 				opts = append(opts, cmd{op: "cut"})
 				if i == 0 {
 					opts = append(opts, cmd{op: "cut"}, cmd{op: "cut"})
@@ -349,7 +367,7 @@ func runCase(k *kase, script []cmd, rng func(int) int, steps int) {
 	accOK := WaitUntil(2*time.Second, func() bool {
 		w.mu.Lock()
 		defer w.mu.Unlock()
-		return w.accepts == 1+w.reachable
+		return w.accepted() == 1+w.reachable
 	})
 	w.mu.Lock()
 	k.rounds = append([]roundRec(nil), w.rounds...)
@@ -357,7 +375,7 @@ func runCase(k *kase, script []cmd, rng func(int) int, steps int) {
 	k.badFlag = w.badFlag
 	k.noReader = w.noReader
 	if !accOK {
-		k.accepts = fmt.Sprintf("listener accepted %d connections, expected %d", w.accepts, 1+w.reachable)
+		k.accepts = fmt.Sprintf("listener accepted %d connections, expected %d", w.accepted(), 1+w.reachable)
 	}
 	w.mu.Unlock()
 	if hung {
@@ -395,6 +413,7 @@ func oracle(st *Stats, idx int, k *kase) {
 			pi = i
 		}
 	}
+	idLost, idUnindexed := false, false
 	for i, s := range k.snaps {
 		for n, p := range s.pos {
 			if strings.HasPrefix(p, "other") {
@@ -405,11 +424,18 @@ func oracle(st *Stats, idx int, k *kase) {
 			}
 		}
 		if s.status == "ok" {
-			if k.uid && s.idc != "user" {
+			if k.uid && s.idc != "user" && !idLost {
+				idLost = true
 				fail("id-lost", fmt.Sprintf("user-assigned id not kept (id class %s) after command %d", s.idc, i))
 			}
-			if !k.uid && s.idc != "local" {
+			// an address-derived id follows the connection; behind a conn that renames its
+			// addresses (websocket) the code keeps the address of the first dial verbatim
+			if !k.uid && s.idc != "local" && !(renames(k.mod) && s.idc == "first") {
 				fail("id-stale", fmt.Sprintf("address-derived id not refreshed (id class %s) after command %d", s.idc, i))
+			}
+			if k.uid && s.idxcur && !s.idxuser && !idUnindexed {
+				idUnindexed = true
+				fail("user-id-not-indexed", fmt.Sprintf("status ok and indexed, but not under the user-assigned id: GetSession(\"me\") does not return the session after command %d (id class %s)", i, s.idc))
 			}
 		}
 		if s.notified && k.budget != 0 && !lost {
@@ -660,7 +686,7 @@ func main() {
 		var script []cmd
 		if i < len(dir) {
 			d := dir[i]
-			*k = kase{budget: d.budget, uid: d.uid, park: d.park, plan: []byte(d.plan), pdef: d.pdef, class: d.name}
+			*k = kase{budget: d.budget, uid: d.uid, park: d.park, plan: []byte(d.plan), pdef: d.pdef, class: d.name, mod: d.mod, modFirst: d.modFirst}
 			script = d.script
 			st.Count("kind:directed")
 		} else {
@@ -692,6 +718,14 @@ func main() {
 			}
 		}
 		st.Count(fmt.Sprintf("losses:%d", nl))
+		if k.mod == "" {
+			st.Count("postdial-modifysocket:none")
+		} else {
+			st.Count(fmt.Sprintf("postdial-modifysocket:%s first=%v", k.mod, k.modFirst))
+			if k.uid && nl > 0 {
+				st.Count("postdial-modifysocket+SetID+loss")
+			}
+		}
 		st.Count(fmt.Sprintf("rounds:%d", min(len(k.rounds), 5)))
 		st.Count("final:" + k.snaps[len(k.snaps)-1].status)
 		oracle(st, i, k)
@@ -725,6 +759,8 @@ func min(a, b int) int {
 	return b
 }
 
+var modKinds = []string{"nop", "wrap", "wrapp", "ren", "ws", "ws"}
+
 func genCase(k *kase, rng func(int) int) {
 	switch rng(6) {
 	case 0:
@@ -735,6 +771,10 @@ func genCase(k *kase, rng func(int) int) {
 		k.budget = int32(1 + rng(3))
 	}
 	k.uid = rng(2) == 0
+	if rng(2) == 0 {
+		k.mod = modKinds[rng(len(modKinds))]
+		k.modFirst = rng(2) == 0
+	}
 	for _, g := range optionalGates {
 		if rng(3) == 0 {
 			k.park = append(k.park, g)
